@@ -8,6 +8,7 @@ import (
 	"os"
 	"os/exec"
 	"path/filepath"
+	"runtime/debug"
 	"strings"
 	"sync"
 	"time"
@@ -654,6 +655,26 @@ func c09RewrittenFiles() core.Space {
 					return
 				}
 			}
+			// the final state of the files, evaluated 2500 more times with the collector off (what is
+			// opened and never closed then stays open: workers allow 2048 descriptors)
+			last := scenarios[i][len(scenarios[i])-1]
+			oldGC := debug.SetGCPercent(-1)
+			defer debug.SetGCPercent(oldGC)
+			for r := 0; r < 2500; r++ {
+				obs := "ERR"
+				p := newParser()
+				if err := p.MergeFileLayers(ch); err == nil {
+					if b, err := p.Output("json"); err == nil {
+						obs = "OK " + strings.TrimSpace(string(b))
+					}
+				}
+				if obs != last.want {
+					c.Outcome("DEPENDS-ON-PROCESS-HISTORY")
+					c.Fail("rewritten-files", "result-changes-with-repetition-in-one-process", fmt.Sprintf("scenario %d, evaluation %d of the same files", i, r+2), map[string]any{"got": obs, "want": last.want})
+					return
+				}
+			}
+			c.Trans(2500)
 			c.Outcome("follows-file-contents")
 		}}
 }
